@@ -89,7 +89,7 @@ class TLCResult:
 _STATES = re.compile(r"(\d+) states generated, (\d+) distinct states found")
 _DEPTH = re.compile(r"The depth of the complete state graph search is (\d+)")
 _INV = re.compile(r"Invariant (\S+) is violated")
-_PROP = re.compile(r"Temporal properties were violated|Action property (\S+) is violated")
+_PROP = re.compile(r"Temporal properties were violated|Action property (\S+) is violated|Temporal property (\S+) was violated")
 
 
 def run_tlc(module, cfg_text, files=(), extra_dir=None, workers=None, timeout=600, env=None, args=(),
@@ -160,7 +160,7 @@ def _parse_tlc(res):
     else:
         m = _PROP.search(res.out)
         if m:
-            res.violated = m.group(1) or "TemporalProperty"
+            res.violated = m.group(1) or m.group(2) or "TemporalProperty"
     # PrintT output: lines that are not TLC's own messages.  TLC prints values on their own lines.
     for line in res.out.splitlines():
         s = line.strip()
